@@ -230,6 +230,49 @@ int main(int argc, char **argv) {
                     }
                     gr_seg_destroy(s);
                 }
+                // an ill-formed tail directly before the terminator (truncated UTF-8 sequence / lone surrogate): the decoder must not
+                // take the NUL for part of the sequence and run on; nChars over-estimates
+                for (int e = 0; e < 2; ++e) {
+                    Text tx;
+                    tx.set(encs[e], t, true);
+                    size_t unit = e == 0 ? 1 : 2;
+                    std::vector<uint8_t> raw(static_cast<uint8_t *>(tx.buf), static_cast<uint8_t *>(tx.buf) + tx.bytes - unit);
+                    size_t badunits;
+                    std::string badname;
+                    if (e == 0) {
+                        static const uint8_t bads[][4] = {{1, 0xC2}, {1, 0xE1}, {2, 0xE1, 0x80}, {2, 0xE2, 0x82}, {1, 0xF1}, {2, 0xF1, 0x80}, {3, 0xF1, 0x80, 0x80}, {2, 0xF0, 0x9F}, {1, 0xC3}, {1, 0xF4}};
+                        const uint8_t *b = bads[r.below(sizeof bads / sizeof bads[0])];
+                        for (int i = 0; i < b[0]; ++i) raw.push_back(b[1 + i]);
+                        badunits = b[0];
+                        badname = hexs(b + 1, b[0]);
+                    } else {
+                        uint16_t u = r.chance(0.5) ? uint16_t(0xD800 + r.below(0x400)) : uint16_t(0xDC00 + r.below(0x400));
+                        raw.push_back(uint8_t(u)); raw.push_back(uint8_t(u >> 8));
+                        badunits = 1;
+                        badname = fmt("%04x", u);
+                    }
+                    for (size_t i = 0; i < unit; ++i) raw.push_back(0);
+                    void *buf = malloc(raw.size());
+                    memcpy(buf, raw.data(), raw.size());
+                    static const size_t more[] = {0, 1, 2, 7, 64, 4096};
+                    size_t nch = t.size() + badunits + more[r.below(6)];
+                    set_case(k, "nul-illformed-tail font=%s enc=%d dir=%d nChars=%zu true=%zu+bad(%s) text=%s", fontpath.c_str(), 1 << e, dir, nch, t.size(), badname.c_str(), cps_str(t, 24).c_str());
+                    gr_segment *s = gr_make_seg(nullptr, f, 0, nullptr, encs[e], buf, nch, dir);
+                    st.add("nul_illformed_tail_segs");
+                    if (s) {
+                        unsigned nc = gr_seg_n_cinfo(s);
+                        if (nc < t.size() + 1 || nc > t.size() + badunits)
+                            V("ncinfo:illformed-tail", "enc=%d tail=%s nChars=%zu: gr_seg_n_cinfo=%u, %zu characters + an ill-formed tail of %zu unit(s) precede the NUL", 1 << e, badname.c_str(), nch, nc, t.size(), badunits);
+                        else {
+                            bool ok = true;
+                            for (size_t i = 0; i < t.size() && ok; ++i) ok = gr_cinfo_unicode_char(gr_seg_cinfo(s, unsigned(i))) == t[i];
+                            for (size_t i = t.size(); i < nc && ok; ++i) ok = gr_cinfo_unicode_char(gr_seg_cinfo(s, unsigned(i))) == 0xFFFD;
+                            if (!ok) V("cinfo:illformed-tail", "enc=%d tail=%s: characters are not the text followed by U+FFFD", 1 << e, badname.c_str());
+                        }
+                        gr_seg_destroy(s);
+                    } else st.add("null_segments");
+                    free(buf);
+                }
                 if (k % 499 == 0) printf("X {\"part\":\"nul\",\"font\":%s,\"text\":\"%s\",\"dir\":%d}\n", jstr(fontpath).c_str(), cps_str(t, 16).c_str(), dir);
                 continue;
             }
